@@ -7,7 +7,7 @@
    (4) the laws fail in binary64 by one rounding (witness).  The size of the rounding gap and the continuation (next iterate)
    are explored by the search and compared bit for bit with the model by the driver correspondence on restart chains. *)
 From Coq Require Import List ZArith Bool String Lia Floats.PrimFloat.
-From LBFGSB Require Model.Dcsrch Model.DriverDcs.
+From LBFGSB Require Model.Dcsrch Model.DriverDcs Model.NumpyOps Generated.RestoreGen.
 From LBFGSB Require Import Base.Res Model.SF Model.FloatVec Model.Driver Model.Restore Generated.Memory
   Proofs.RestoreProofs Proofs.RestoreInst Proofs.DriverShape Proofs.DriverRestart Proofs.DriverRestartState Proofs.DriverSnapshot Proofs.DriverSplit Generated.StopTests.
 Import ListNotations.
@@ -194,6 +194,40 @@ Theorem C06_checkpoint_cannot_tell :
 Proof. exact checkpoint_cannot_tell. Qed.
 
 
+(* TRANSLATION TIE: the loop of main.initialize_X_and_G that rebuilds the stored points -
+     for x, g in zip((checkpoint.x - np.cumsum(sk[::-1], axis=0))[::-1], (checkpoint.jac - np.cumsum(yk[::-1], axis=0))[::-1]):
+         if len(X) > maxcor: X.popleft(); G.popleft()
+         X.append(x); G.append(g)
+   - is translated from the source on every run (Generated/RestoreGen.v) and IS the restore function of the driver model, for a
+   checkpoint with as many yk rows as sk rows (the forward-order cumulative sum of the pinned tree, defect D5, is a different term). *)
+Lemma np_cumsum_from_model : forall (rs : list vec) (a : vec), NumpyOps.np_cumsum_from a rs = Driver.cumsum (Some a) rs.
+Proof. induction rs as [|r rs IH]; intros a; cbn; [reflexivity|]. f_equal. apply IH. Qed.
+Lemma np_cumsum_model : forall rs : list vec, NumpyOps.np_cumsum rs = Driver.cumsum None rs.
+Proof. destruct rs as [|r rs]; cbn; [reflexivity|]. f_equal. apply np_cumsum_from_model. Qed.
+Lemma restored_points_model : forall (v : vec) (rows : list vec), RestoreGen.restored_points v rows = Driver.restore_points v rows.
+Proof. intros. unfold RestoreGen.restored_points, Driver.restore_points. rewrite np_cumsum_model. reflexivity. Qed.
+Lemma push_pairs_model : forall (c : cfg) (px pg : list vec) (X G : list vec),
+  List.length px = List.length pg -> List.length X = List.length G ->
+  RestoreGen.push_pairs (maxcor c) (List.combine px pg) X G = (Driver.push_bounded c px X, Driver.push_bounded c pg G).
+Proof.
+  intros c. induction px as [|p px IH]; intros pg X G Hp HXG; destruct pg as [|q pg]; try discriminate; [reflexivity|].
+  injection Hp as Hp. cbn [List.combine RestoreGen.push_pairs Driver.push_bounded]. rewrite <- HXG.
+  destruct (Z.of_nat (List.length X) >? maxcor c); apply IH; auto; rewrite !app_length; cbn [List.length]; try lia.
+  destruct X, G; cbn in *; try discriminate; lia.
+Qed.
+Theorem C06_restore_translated : forall (c : cfg) (ck : result), List.length (r_yk ck) = List.length (r_sk ck) -> r_sk ck <> [] ->
+  RestoreGen.initialize_X_and_G (maxcor c) (r_x ck) (r_jac ck) (r_sk ck) (r_yk ck) = Driver.restore c ck.
+Proof.
+  intros c ck HL Hne. unfold RestoreGen.initialize_X_and_G, Driver.restore. rewrite !restored_points_model.
+  destruct (r_sk ck) as [|s0 sk] eqn:E; [congruence|]. rewrite <- E in *.
+  apply push_pairs_model; [|reflexivity].
+  unfold Driver.restore_points. rewrite !rev_length, !map_length.
+  assert (Hc : forall rs acc, List.length (Driver.cumsum acc rs) = List.length rs).
+  { induction rs as [|r rs IH]; intros acc; cbn; [reflexivity|]. f_equal. apply IH. }
+  rewrite !Hc, !rev_length. symmetry. exact HL.
+Qed.
+
+Print Assumptions C06_restore_translated.
 Print Assumptions C06_restore_exact.
 Print Assumptions C06_no_iteration_pairs.
 Print Assumptions C06_model_is_instance.
